@@ -104,8 +104,23 @@ def run(repo, rep):
     builds = [(e, s) for s, _how in uc.final_states(uo) for e in s.trail if e.kind == 'build']
     ok_start = bool(builds)
     seen_start = set()
+    cases = []
     for e, _s in builds:
         st_term = e.args[1] if len(e.args) > 1 else dict(e.kwargs).get('start', '?')
+        try:
+            te = ast.parse(st_term, mode='eval').body
+        except SyntaxError:
+            te = None
+        if isinstance(te, ast.IfExp):
+            # the choice written as a conditional expression in the argument: one case per arm
+            t_ = ast.unparse(te.test)
+            neg = t_[4:] if t_.startswith('not ') else None
+            cases.append((ast.unparse(te.body), tuple(e.conds) + (('-' + neg) if neg else ('+' + t_),)))
+            cases.append((ast.unparse(te.orelse), tuple(e.conds) + (('+' + neg) if neg else ('-' + t_),)))
+        else:
+            cases.append((st_term, tuple(e.conds)))
+    for st_term, conds_ in cases:
+        e = type('E', (), {'conds': conds_})
         seen_start.add(st_term)
         has = '+self.context_def_list' in e.conds or '-not self.context_def_list' in e.conds \
             or '+len(self.context_def_list) > 0' in e.conds or '-len(self.context_def_list) == 0' in e.conds
@@ -244,6 +259,65 @@ def run(repo, rep):
                     probs.append('services are registered for %s but contexts are allocated for %s' % (src, want))
         rep.check(not probs, 'C11.Q5', 'applicationentity:%s.%s:registration' % (cname, mname), fn.loc(),
                   'every registered SOP class gets a presentation context definition', '; '.join(probs))
+
+    # ---------------------------------------------------------------- Q5b: the explicit list wins over the service's own
+    rep.rule('C11.Q5b', 'add_scu(service, sop_classes): a non-empty explicit list is what gets registered and proposed; the '
+             'service\'s own list is the fall-back', 1)
+    fn = ae.find_method('add_scu')
+    if len(fn.params) < 3:
+        raise AnalysisError('%s: add_scu(self, service, sop_classes) expected' % fn.loc())
+    svc_p, lst_p = fn.params[1], fn.params[2]
+    c5 = SymClient(repo, fn, event_of=lambda call, callee, *_: 'alloc' if callee == 'self.update_context_def_list' else None,
+                   hierarchy=hier, inline=repo.is_helper)
+    c5.run(empty_state())
+    allocs = [(e_, s_) for e_, s_ in c5.log if e_.kind == 'alloc' and e_.args]
+    if not allocs:
+        raise AnalysisError('%s: add_scu does not call update_context_def_list' % fn.loc())
+    p5b = []
+    own = '%s.sop_classes' % svc_p
+    for e_, _s in allocs:
+        t = e_.args[0]
+        try:
+            te = ast.parse(t, mode='eval').body
+        except SyntaxError:
+            raise AnalysisError('%s: cannot parse %s' % (fn.loc(), t))
+        while isinstance(te, ast.Call) and norm(te.func) in ('list', 'tuple') and len(te.args) == 1 and not te.keywords:
+            te = te.args[0]
+        verdict = None
+        given = any(c_ in ('+' + lst_p, '+%s is not None' % lst_p, '-%s is None' % lst_p) for c_ in e_.conds)
+        absent = any(c_ in ('-' + lst_p, '-%s is not None' % lst_p, '+%s is None' % lst_p, '+not ' + lst_p) for c_ in e_.conds)
+        if isinstance(te, ast.BoolOp) and isinstance(te.op, ast.Or):
+            ops = [norm(x) for x in te.values]
+            while ops and ops[-1] in ('()', '[]'):
+                ops.pop()
+            if ops == [lst_p, own]:
+                verdict = True
+            elif lst_p in ops and own in ops and ops.index(own) < ops.index(lst_p):
+                verdict = False
+        elif isinstance(te, ast.IfExp):
+            tt = norm(te.test)
+            a, b = norm(te.body), norm(te.orelse)
+            if (tt in (lst_p, '%s is not None' % lst_p) and (a, b) == (lst_p, own)) or \
+                    (tt in ('not ' + lst_p, '%s is None' % lst_p) and (a, b) == (own, lst_p)):
+                verdict = True
+            elif (tt in (own,) and (a, b) == (own, lst_p)):
+                verdict = False
+        elif norm(te) == lst_p and given:
+            verdict = True
+        elif norm(te) == own and absent:
+            verdict = True
+        elif norm(te) == own and not absent:
+            verdict = False
+        if verdict is None:
+            rep.undecided('C11.Q5b', '%s: contexts are allocated for %s, whose choice between the explicit list and the service\'s '
+                          'own is not in a form the rule reads' % (fn.loc(), t[:140]))
+            break
+        if not verdict:
+            p5b.append('contexts are allocated for %s: the explicit %s is used only when the service declares no classes of its own'
+                       % (t, lst_p))
+    else:
+        rep.check(not p5b, 'C11.Q5b', 'applicationentity:AEBase.add_scu:override', fn.loc(),
+                  'explicit list first, the service\'s own list as the fall-back (%d allocation site(s))' % len(allocs), '; '.join(sorted(set(p5b))))
 
     # ---------------------------------------------------------------- Q2
     req = rq.find_method('_request')
